@@ -12,7 +12,7 @@ import random
 import numpy as np
 
 from harness.core import import_lentil
-from harness.tlc import run_tlc, eval_cases
+from harness.tlc import run_tlc, eval_cases, validate_trace
 
 LEVEL = 'model_checking'
 
@@ -272,6 +272,72 @@ def check_case(ctx, lentil, c, e):
                               case={'case': c, 'exp': e})
 
 
+def fj(field):
+    """real Field -> JSON record of the specification (exact Gaussian integers)"""
+    d = np.asarray(field.data)
+    if d.ndim == 0:
+        return {'sh': [], 'off': [int(field.offset[0]), int(field.offset[1])], 'd': [int(round(float(d.real))), int(round(float(d.imag)))]}
+    return {'sh': [int(d.shape[0]), int(d.shape[1])], 'off': [int(field.offset[0]), int(field.offset[1])],
+            'd': [[[int(round(x.real)), int(round(x.imag))] for x in row] for row in d]}
+
+
+def record_sessions(lentil, rng, nsess, nsteps):
+    """code -> spec: sessions in which results feed later operations"""
+    fld = lentil.field
+    events = []
+    for tid in range(nsess):
+        pool = []
+        for _ in range(4):
+            sh = rng.choice([(2, 2), (2, 3), (3, 2), (3, 3), (1, 3), (4, 2)])
+            f = mkfield(rng, sh, (rng.randint(-3, 3), rng.randint(-3, 3)))
+            pool.append(real_field(lentil, f))
+        pool.append(lentil.field.Field(data=np.array(complex(*gint(rng, 1, 2))), offset=[0, 0]))     # an infinite constant
+        for k in range(nsteps):
+            act = rng.choice(('mul', 'mul', 'merge', 'reduce', 'insert'))
+            arrs = [f for f in pool if np.asarray(f.data).ndim == 2]
+            ev = {'id': len(events), 'tid': tid, 'seq': k, 'act': act}
+            try:
+                if act == 'mul':
+                    a, b = rng.choice(pool), rng.choice(pool)
+                    if np.asarray(a.data).ndim == 0 and np.asarray(b.data).ndim == 0:
+                        continue
+                    r = a * b
+                    out = [] if np.asarray(r.data).size == 0 else [r]
+                    ev.update(a=fj(a), b=fj(b), out=[fj(x) for x in out])
+                    if out and np.asarray(r.data).size > 1 and np.abs(r.data).max() < 3000:
+                        pool.append(r)
+                elif act == 'merge':
+                    a, b = rng.sample(arrs, 2)
+                    r = fld.merge(a, b, enforce_overlap=False)
+                    ev.update(ins=[fj(a), fj(b)], out=[fj(r)])
+                    if np.asarray(r.data).size <= 60:
+                        pool.append(r)
+                elif act == 'reduce':
+                    ins = rng.sample(arrs, rng.randint(1, min(4, len(arrs))))
+                    rs = fld.reduce(ins)
+                    ev.update(ins=[fj(x) for x in ins], out=[fj(x) for x in rs])
+                else:
+                    f = rng.choice(arrs)
+                    tsh = (rng.randint(1, 6), rng.randint(1, 6))
+                    inten = rng.random() < 0.4
+                    t = np.array([[complex(rng.randint(-3, 3), 0 if inten else rng.randint(-3, 3)) for _ in range(tsh[1])] for _ in range(tsh[0])])
+                    tr = t.real.copy() if inten else t.copy()
+                    w = rng.choice((1, 2, -1))
+                    before = [[[int(x.real), int(x.imag)] for x in row] for row in t]
+                    r = fld.insert(f, tr, intensity=inten, weight=w)
+                    after = [[[int(round(complex(x).real)), int(round(complex(x).imag))] for x in row] for row in np.asarray(r)]
+                    ev.update(f=fj(f), tsh=list(tsh), before=before, after=after, weight=w, intensity=inten)
+            except Exception as ex:
+                ev['exc'] = type(ex).__name__
+                ev.update(act='insert', f=fj(pool[0]), tsh=[1, 1], before=[[[0, 0]]], after=[[[7, 7]]], weight=1, intensity=False)
+            events.append(ev)
+            if len(pool) > 9:
+                pool = pool[:5] + pool[-3:]
+    for i, e in enumerate(events):
+        e['id'] = i
+    return events
+
+
 def nontrivial_key(c):
     if c['k'] in ('mul', 'extent'):
         return (c['k'], tuple(c['a']['sh']), tuple(c['a']['off']), tuple(c['b']['sh']), tuple(c['b']['off']))
@@ -295,7 +361,21 @@ def run(ctx):
         kinds[c['k']] = kinds.get(c['k'], 0) + 1
         if kinds[c['k']] == 1:
             ctx.sample({'case': c, 'expected_by_TLC': exp[c['id']]}, maxn=5)
-    ctx.traces += len(cases)
+    # ---- code -> spec: sessions whose results feed later operations, validated by TLC (Trace_C06) ----------------------
+    rng = random.Random(606 + ctx.seed)
+    events = record_sessions(lentil, rng, 150 if q else 1500, 8)
+    bad = validate_trace(ctx, 'Trace_C06', events, nparts=12)
+    byid = {e['id']: e for e in events}
+    for eid, clauses in bad:
+        e = byid[eid]
+        for cl in clauses:
+            ctx.violation({'op': 'session-' + e['act'], 'kind': cl, 'exc': e.get('exc')},
+                          {'event': e, 'session_so_far': [x['act'] for x in events if x['tid'] == e['tid'] and x['seq'] <= e['seq']]},
+                          case={'event': e})
+    for e in events:
+        ctx.case(('session', e['tid'], e['seq']))
+    ctx.traces += len(cases) + len({e['tid'] for e in events})
+    ctx.extra['session_events_validated'] = len(events)
     ctx.extra['cases_by_operation'] = kinds
     ctx.exhaustive = not q
     ctx.rule = ('cases = (operation, shapes, offsets) with seeded Gaussian-integer data; quick tier samples the full '
